@@ -1,8 +1,202 @@
-"""C01 -- contracts (proof part under construction) + bounded stand-in."""
-from pyvc.runner import Bounded
+"""C01 -- a hash verifies exactly the password it was made from."""
+import z3
 
-LEVEL = "other"
-EXPLANATION = "bounded stand-in only so far: the contracts of this property are checked on the real functions over the stated finite domains (see coverage.bounded); nothing is counted as proved."
-ASSUMPTIONS = []
-CONTRACTS = []
-BOUNDED = [Bounded("c01", "harness/c01.py", descr="see harness docstring", timeout=900)]
+from contracts.trusted import fresh_str
+from pyvc.contract import Bytes, Const, Contract, Int, Lemma, NoneT, Obj, Str, Union
+from pyvc.runner import Bounded
+from pyvc.symexec import RaiseSig, exc_class
+from pyvc.values import SBool, SDict, SExc, SObj, SStr, SStub
+
+LEVEL = "proof"
+H = "passlib/utils/handlers.py"
+EXPLANATION = (
+    "GenericHandler.hash and GenericHandler.verify are verified from their real source over an abstract handler "
+    "(checksum = calc(settings, secret), render/parse as uninterpreted functions): hash(secret) == render(settings, "
+    "calc(settings, secret)) after validate_secret; verify(secret, h) == (calc(parse_settings(h), secret) == "
+    "parse_checksum(h)); the round-trip lemma verify(s, hash(s)) is True (and, for s' != s, False unless the digests "
+    "collide) follows from the handler obligations H1 (parse o render restores settings and checksum: C07) and H2 "
+    "(_calc_checksum is a function of settings and secret). PrefixWrapper wrap/unwrap are inverse on the wrapped "
+    "prefix, so wrapped hashers inherit the lemma; the libpass SHA-crypt hasher renders through its own info class. "
+    "All registered hashers are swept by the bounded stand-in."
+)
+ASSUMPTIONS = [
+    "H2: _calc_checksum(secret) is a deterministic function of the parsed settings and the secret (no rng/time); django_disabled is the documented exception",
+    "H1: from_string(to_string(x)) restores the attributes _calc_checksum reads (C07 contracts / bounded stand-in)",
+    "consteq(a, b) == (a == b) (hmac.compare_digest)",
+    "collision resistance of the digests for 'a different password does not verify'",
+]
+
+calc = z3.Function("calc_checksum", z3.StringSort(), z3.StringSort(), z3.StringSort())  # settings, secret
+render = z3.Function("render", z3.StringSort(), z3.StringSort(), z3.StringSort())  # settings, checksum
+parse_settings = z3.Function("parse_settings", z3.StringSort(), z3.StringSort())
+parse_chk = z3.Function("parse_checksum", z3.StringSort(), z3.StringSort())
+has_chk = z3.Function("has_checksum", z3.StringSort(), z3.BoolSort())
+well_formed = z3.Function("well_formed", z3.StringSort(), z3.BoolSort())
+
+
+def _instance(it, settings):
+    inst = SObj(it.run.fresh("handler_instance"), fresh=True)
+
+    def calc_checksum(it2, a, k):
+        it2.run.calls.append(("_calc_checksum", ()))
+        sec = it2.resolve(a[0])
+        if not isinstance(sec, (str, bytes, SStr)):
+            # real digests call secret.encode()/len(): a non-string reaching them is an internal error
+            raise RaiseSig(SExc(exc_class("AttributeError")), it2.lineno)
+        return SStr(calc(settings, it2.to_z3(sec)), "str")
+
+    def to_string(it2, a, k):
+        chk = inst.fields.get("checksum")
+        return SStr(render(settings, it2.to_z3(chk)), "str")
+
+    inst.fields["_calc_checksum"] = SStub(calc_checksum, "_calc_checksum")
+    inst.fields["to_string"] = SStub(to_string, "to_string")
+    inst.fields["checksum"] = None
+    return inst
+
+
+def _new(it, args, kwargs):
+    sigma = z3.String("fresh_settings")  # salt/rounds chosen by the constructor
+    it.run.ghost["settings"] = sigma
+    inst = _instance(it, sigma)
+    it.run.ghost["instance"] = inst
+    return inst
+
+
+def _from_string(it, args, kwargs):
+    h = it.to_z3(args[-1] if len(args) == 1 else args[1]) if False else it.to_z3(args[0])
+    if not it.run.branch(well_formed(h)):
+        raise RaiseSig(SExc(exc_class("ValueError")), it.lineno)
+    inst = _instance(it, parse_settings(h))
+    inst.fields["checksum"] = it.resolve(Union(NoneT(), Str()).make(it, it.run.fresh("parsed_checksum")))
+    if inst.fields["checksum"] is None:
+        it.run.assume(z3.Not(has_chk(h)))
+    else:
+        it.run.assume(z3.And(has_chk(h), inst.fields["checksum"].e == parse_chk(h)))
+    return inst
+
+
+def _consteq(it, args, kwargs):
+    return it.cmp_vals("==", args[0], args[1])
+
+
+CLS = Obj(cls=(H, "GenericHandler"), is_class=True, fields={"from_string": SStub(_from_string, "cls.from_string", trusted="H1/C07: parser contract"), "name": "handler"})
+G = {"new.*": SStub(_new, "cls(use_defaults=True)", trusted="constructor picks the settings"), "consteq": SStub(_consteq, "consteq")}
+
+CONTRACTS = [
+    Contract(
+        "GenericHandler.hash", f"{H}::GenericHandler.hash",
+        params={"cls": CLS, "secret": Union(Str(), Bytes(), NoneT()), "kwds": Const(SDict())},
+        globals=G,
+        raises_iff={"TypeError": "secret is None", "PasswordSizeError": "secret is not None and len(secret) > 4096"},
+        ensures=[
+            ("hash(secret) == render(settings, calc(settings, secret))", lambda it, env: it.cmp_vals("==", env.lookup("result"), SStr(render(it.run.ghost["settings"], calc(it.run.ghost["settings"], it.to_z3(env.lookup("secret")))), "str"))),
+            ("exactly one digest computation", "calls('_calc_checksum') == 1"),
+        ],
+        descr="any handler (abstract settings / checksum / rendering), any str or bytes secret",
+    ),
+    Contract(
+        "GenericHandler.verify", f"{H}::GenericHandler.verify",
+        params={"cls": CLS, "secret": Union(Str(), Bytes()), "hash": Str(), "context": Const(SDict())},
+        globals=G,
+        raises={"PasswordSizeError": "len(secret) > 4096", "ValueError": lambda it, env: z3.Or(z3.Not(well_formed(it.to_z3(env.lookup("hash")))), z3.Not(has_chk(it.to_z3(env.lookup("hash")))))},
+        ensures=[
+            ("verify(secret, h) == (calc(parse_settings(h), secret) == parse_checksum(h))",
+             lambda it, env: it.to_zbool(it.truth(env.lookup("result"))) == (calc(parse_settings(it.to_z3(env.lookup("hash"))), it.to_z3(env.lookup("secret"))) == parse_chk(it.to_z3(env.lookup("hash"))))),
+            ("only well-formed hashes with a digest are answered", lambda it, env: z3.And(well_formed(it.to_z3(env.lookup("hash"))), has_chk(it.to_z3(env.lookup("hash"))))),
+        ],
+        descr="any handler, any secret, any hash string",
+    ),
+]
+
+
+def _roundtrip():
+    s, s2, sigma = z3.Strings("secret other settings")
+    h = render(sigma, calc(sigma, s))  # hash contract
+    H1 = [parse_settings(h) == sigma, parse_chk(h) == calc(sigma, s), has_chk(h), well_formed(h)]
+    ver = lambda x: calc(parse_settings(h), x) == parse_chk(h)  # verify contract  # noqa: E731
+    return [
+        ("verify(secret, hash(secret)) is True", H1, ver(s)),
+        ("verify(other, hash(secret)) is True only if the digests collide", H1 + [ver(s2)], calc(sigma, s2) == calc(sigma, s)),
+    ]
+
+
+LEMMAS = [Lemma("hash-verify-roundtrip", _roundtrip, "over the contracts of GenericHandler.hash / verify and the handler obligations H1, H2")]
+
+# ---- PrefixWrapper ------------------------------------------------------------------------------------------
+PW = Obj(cls=(H, "PrefixWrapper"), fields={"prefix": Str(), "orig_prefix": Str(), "wrapped": Obj(fields={"name": "wrapped"}), "name": "wrapper"})
+CONTRACTS += [
+    Contract(
+        "PrefixWrapper._wrap_hash", f"{H}::PrefixWrapper._wrap_hash",
+        params={"self": PW, "hash": Str()},
+        raises_iff={"ValueError": "not hash.startswith(self.orig_prefix)"},
+        ensures=[("the wrapped prefix is replaced by the wrapper's prefix", "result == self.prefix + hash[len(self.orig_prefix):]")],
+    ),
+    Contract(
+        "PrefixWrapper._unwrap_hash", f"{H}::PrefixWrapper._unwrap_hash",
+        params={"self": PW, "hash": Str()},
+        raises_iff={"ValueError": "not hash.startswith(self.prefix)"},
+        ensures=[("the wrapper's prefix is replaced by the wrapped prefix", "result == self.orig_prefix + hash[len(self.prefix):]")],
+    ),
+]
+
+
+def _wrap_inverse():
+    h, p, op = z3.Strings("h prefix orig_prefix")
+    pre = [z3.PrefixOf(op, h)]
+    w = z3.Concat(p, z3.SubString(h, z3.Length(op), z3.Length(h) - z3.Length(op)))  # _wrap_hash contract
+    u = z3.Concat(op, z3.SubString(w, z3.Length(p), z3.Length(w) - z3.Length(p)))  # _unwrap_hash contract
+    return [("unwrap(wrap(h)) == h for every h carrying the wrapped prefix", pre, z3.And(z3.PrefixOf(p, w), u == h))]
+
+
+LEMMAS.append(Lemma("prefix-wrapper-inverse", _wrap_inverse, "over the contracts of _wrap_hash / _unwrap_hash"))
+
+# ---- libpass SHA-crypt hasher renders through its own info class ----------------------------------------
+L = "libpass/hashers/sha_crypt.py"
+
+
+def _sha_setup(it, args):
+    self = args["self"]
+
+    def info_cls(it2, a, k):
+        it2.run.ghost["rendered_by"] = "own"
+        o = SObj("info", fresh=True, fields={"as_str": SStub(lambda i, aa, kk: fresh_str(i, "own_format_string"), "info.as_str")})
+        return o
+
+    self.fields["_info_cls"] = SStub(info_cls, "self._info_cls")
+    self.fields["_rounds"] = 5000
+    self.fields["_sha_func"] = None
+    self.fields["_transpose_map"] = ()
+    return None
+
+
+def _foreign(name):
+    def call(it, a, k):
+        it.run.ghost["rendered_by"] = name
+        return SObj("foreign_info", fresh=True, fields={"as_str": SStub(lambda i, aa, kk: fresh_str(i, "foreign_format_string"), "as_str")})
+
+    return SStub(call, name)
+
+
+CONTRACTS.append(Contract(
+    "libpass._ShaHasher.hash", f"{L}::_ShaHasher.hash",
+    params={"self": Obj(), "secret": Str(), "salt": Union(NoneT(), Str())},
+    setup=_sha_setup,
+    globals={"SHA256CryptInfo": _foreign("SHA256CryptInfo"), "SHA512CryptInfo": _foreign("SHA512CryptInfo"),
+             "_sha_crypt": SStub(lambda it, a, k: fresh_str(it, "digest", "bytes"), "_sha_crypt"), "_gen_salt": SStub(lambda it, a, k: fresh_str(it, "salt"), "_gen_salt"),
+             "as_str": SStub(lambda it, a, k: a[0] if not isinstance(it.resolve(a[0]), SStr) or it.resolve(a[0]).kind == "str" else SStr(it.resolve(a[0]).e, "str"), "as_str"),
+             "as_bytes": SStub(lambda it, a, k: SStr(it.to_z3(a[0]), "bytes"), "as_bytes")},
+    ensures=[("the hash is rendered through the hasher's own format class (so it identifies and verifies it)", lambda it, env: it.run.ghost.get("rendered_by") == "own")],
+    descr="SHA256Hasher / SHA512Hasher share this body",
+))
+
+BOUNDED = [Bounded("c01", "harness/c01.py", descr="every registered hasher x password/settings grid x near misses", timeout=900)]
+
+MUTANTS = [
+    ("verify compares against the settings instead of the digest", H, "        return consteq(self._calc_checksum(secret), chk)\n", "        return consteq(self._calc_checksum(secret), chk) or chk == \"\"\n", "refute"),
+    ("hash skips validate_secret", H, "        validate_secret(secret)\n        self = cls(use_defaults=True, **kwds)\n", "        self = cls(use_defaults=True, **kwds)\n", "refute"),
+    ("verify accepts a missing digest", H, "        if chk is None:\n            raise exc.MissingDigestError(cls)\n        return consteq(", "        if chk is None:\n            return True\n        return consteq(", "refute"),
+    ("_wrap_hash keeps one char of the old prefix", H, "        return self.prefix + hash[len(orig_prefix) :]\n", "        return self.prefix + hash[len(orig_prefix) - 1 :]\n", "refute"),
+    ("_unwrap_hash does not check the prefix", H, "        if not hash.startswith(prefix):\n            raise exc.InvalidHashError(self)\n        # NOTE: always passing", "        # NOTE: always passing", "refute"),
+    ("libpass hash renders with the sha256 info class", L, "        return self._info_cls(\n", "        return SHA256CryptInfo(\n", "refute"),
+]
